@@ -245,7 +245,7 @@ def inspect_spec_id(cfg: dict, scratch: str) -> Optional[str]:
 
 
 def launch_ids(pipe: str, rs: dict, scratch: str, extra: List[str], csv_variant: Optional[int] = None, touch: bool = False, yaml_text: Optional[str] = None,
-               subdir: bool = False):
+               subdir: bool = False, prepare=None):
     """subdir: the configuration and its source file live in <scratch>/cfg while the process works in <scratch>, where a DECOY
     runs.csv with other content lies: relative source paths are relative to the configuration file, not to the working directory."""
     harness.clear_dir(scratch)
@@ -255,6 +255,8 @@ def launch_ids(pipe: str, rs: dict, scratch: str, extra: List[str], csv_variant:
         write_csv(scratch, 2, 7)
         return _launch_ids_in(pipe, rs, scratch, os.path.join(scratch, "cfg"), extra, yaml_text)
     write_csv(scratch, 3, csv_variant or 0)
+    if prepare is not None:
+        prepare()
     if touch:
         os.utime(os.path.join(scratch, "runs.csv"), (1.0e9, 1.0e9))
     return _launch_ids_in(pipe, rs, scratch, scratch, extra, yaml_text)
@@ -395,6 +397,25 @@ def judge_ids(scratch: str, tier: str) -> Tuple[int, List[Tuple[str, str, dict]]
                     bad("relative-source-path-not-relative-to-config",
                         f"same configuration + source file in a sub-directory (a decoy runs.csv in the working directory): spec {sd['run_space_spec_id'][:12]} vs {spec[:12]}, "
                         f"factors of the runs {got}")
+            # a source file of several MiB (read in chunks) whose variants differ in their LAST byte only
+            rs_big = {"blocks": [{"mode": "by_position", "context": {"a": [0.0, 0.0, 0.0]}, "source": {"format": "json", "path": "big.json", "select": ["value", "factor"]}}]}
+            big_ids = []
+            for tail in ("A", "A", "B"):
+                harness.clear_dir(scratch)
+                rows = [{"value": float(i + 1), "factor": 0.5 + i, "pad": "x" * (1 << 20) + (tail if i == 2 else "")} for i in range(3)]
+                def _write_big(rows=rows):
+                    with open(os.path.join(scratch, "big.json"), "w") as f:
+                        json.dump(rows, f)
+                sb, _, rb = launch_ids(pipe, rs_big, scratch, [], prepare=_write_big)
+                n_eval += 1
+                big_ids.append(None if sb is None else sb.get("run_space_inputs_id"))
+            if None in big_ids:
+                bad("launch-bracket-broken", "a launch over a 3 MiB JSON source produced no run_space_start / inputs id")
+            else:
+                if big_ids[0] != big_ids[1]:
+                    bad("inputs-id-not-reproducible", "the same 3 MiB source file gives two different run_space_inputs_id values")
+                if big_ids[2] == big_ids[0]:
+                    bad("inputs-id-ignores-content", "a 3 MiB source file changed in its last byte keeps run_space_inputs_id")
             t, _, _ = launch_ids(pipe, rs, scratch, [], touch=True)
             ch, _, _ = launch_ids(pipe, rs, scratch, [], csv_variant=1)
             n_eval += 2
